@@ -334,7 +334,7 @@ def ops_unit():
 
 
 def unit(which):
-    return {"encoding": encoding_unit, "ops": ops_unit, "element": element_unit}[which]()
+    return {"encoding": encoding_unit, "ops": ops_unit, "element": element_unit, "elligator": elligator_unit}[which]()
 
 
 # ----------------------------------------------------------------------------- element traits (C06, C08, C04 sums)
@@ -454,6 +454,13 @@ def element_unit():
         Fn("clear_cofactor", ensures="r == *self", props=("C06",), preamble=BUE),
         Fn("mul_by_cofactor_to_group", ensures="r.inner == of_p4(arepr(self.inner))", props=("C06",), preamble=BUE)],
         header_out="impl AffinePoint"))
+    split = []
+    for it in items:
+        if it.mode == "verify" and len(it.fns) > 1 and it.header_out and " for " not in it.header_out:
+            split += [dataclasses.replace(it, fns=[f]) for f in it.fns]
+        else:
+            split.append(it)
+    items = split
     u = Unit(name="ark_element", preludes=base_preludes() + [("curve_spec.rs", None), ("ark_ec.rs", None), ("ark_curve_misc.rs", None)],
              items=items, lemmas=lem + CURVE_LEMMAS_E + OPS_LEMMAS.replace("impl Element { pub open spec fn p4(self) -> P4 { repr(self.inner) } }", "") + ELEMENT_LEMMAS, params=fq,
              global_subst=[("R7", r'\bProjective<Decaf377EdwardsConfig>', 'EdwardsProjective'),
@@ -466,3 +473,34 @@ def element_unit():
 def conv_items_stub():
     return [dataclasses.replace(it, mode="stub", proved_in="ark_ops", fns=[dataclasses.replace(f, preamble="") for f in it.fns])
             for it in conv_items()]
+
+
+# ----------------------------------------------------------------------------- Elligator (C07)
+ELL = "src/ark_curve/elligator.rs"
+ELL_LEMMAS = r"""
+// M-ELL: the optimised Elligator map lands on the curve (with z != 0), in 2E
+pub broadcast axiom fn m_ell_on_curve(r0: int)
+    requires in_fq(r0)
+    ensures on_curve(#[trigger] ell_opt(r0)), valid(ell_opt(r0));
+"""
+
+
+def elligator_unit():
+    fq = field_params("fq")
+    stubs, lem = fq_field_stubs()
+    items = list(stubs) + sign_items()
+    items += [dataclasses.replace(it, mode="stub", proved_in="ark_ops", fns=[dataclasses.replace(f, preamble="") for f in it.fns])
+              for it in op_items(OPS_P) if it.header == "impl<'a, 'b> Add<&'b Element> for &'a Element"]
+    bu = "broadcast use fq_abs, ad_consts, isqrt_spec_ok, m_ell_on_curve, to_affine_wf;"
+    items.append(Item(ELL, "impl Element", [Fn("elligator_map", ensures="repr(r.inner) == to_affine(ell_opt(r_0.val()))", props=("C07", "C06"),
+                                               preamble=bu + " assert(on_curve(ell_opt(r_0.val())));")]))
+    items.append(Item(ELL, "impl Element", [Fn("hash_to_curve", props=("C07",), preamble=bu,
+                      ensures="to_affine(repr(r.inner)) == to_affine(te_add(to_affine(ell_opt(r_1.val())), to_affine(ell_opt(r_2.val()))))")]))
+    items.append(Item(ELL, "impl Element", [Fn("encode_to_curve", ensures="repr(res.inner) == to_affine(ell_opt(r.val()))", ret="res", props=("C07",), preamble=bu)]))
+    u = Unit(name="ark_elligator", preludes=base_preludes() + [("curve_spec.rs", None), ("ark_ec.rs", None), ("ark_curve_misc.rs", None)],
+             items=items, lemmas=lem + CURVE_LEMMAS + OPS_LEMMAS.replace("impl Element { pub open spec fn p4(self) -> P4 { repr(self.inner) } }", "") + ELL_LEMMAS,
+             params=fq, lazy_names=("ONE", "TWO"))
+    u.raw = [("src/error.rs", "enum", "EncodingError"), (ENC, "struct", "Encoding"),
+             ("src/ark_curve/element/projective.rs", "struct", "Element")]
+    u.ufcs_fns = ("hash_to_curve",)
+    return u
